@@ -24,18 +24,32 @@ CHAIN_MODULES = ("flowmark.cli", "flowmark.reformat_api", "flowmark.linewrapping
 def find_parse_args(ctx: Ctx) -> FuncInfo:
     """The function of flowmark.cli that builds the main ArgumentParser (found by shape, not by name)."""
     repo = ctx.repo
-    best = None
+    def builds_options(f: FuncInfo) -> bool:
+        for c in walk_no_nested(f.node):
+            if isinstance(c, ast.Call):
+                r = repo.resolve_expr(c.func, f.module, f)
+                if isinstance(r, ClassInfo) and r.name == "Options":
+                    return True
+        return False
+
+    cands = []
     for f in repo.functions.values():
         if f.module.name != "flowmark.cli" or isinstance(f.node, ast.Lambda):
             continue
-        pms = parsers_in(repo, f)
-        if pms:
-            if best is not None:
-                raise AnalysisError("two functions of flowmark.cli build ArgumentParsers; cannot pick the CLI parser")
-            best = f
-    if best is None:
+        if builds_options(f):
+            repo.func(f.qual)  # registers the function as an anchor: the inlined view keeps it a function of its own
+        if parsers_in(repo, f):
+            cands.append(f)
+    if not cands:
         raise AnalysisError("anchor vanished: no function of flowmark.cli builds an argparse.ArgumentParser")
-    return best
+    if len(cands) > 1:
+        # the one that also turns the parsed namespace into the Options record
+        with_opts = [f for f in cands if builds_options(f)]
+        if len(with_opts) != 1:
+            raise AnalysisError("the argument parsers of flowmark.cli are built in functions other than the one that fills Options; "
+                                "cannot model the CLI from the source as written")
+        return with_opts[0]
+    return cands[0]
 
 
 def split_parsers(pms: dict):
